@@ -14,7 +14,7 @@ from vlib.modules import make_mod, make_scheme_mod, new_generator, GenError
 from props import c06
 
 ID = "C07"
-BUDGET = {"quick": 240, "thorough": 1600}
+BUDGET = {"quick": 176, "thorough": 1600}
 CASE_TIMEOUT = {"quick": 300, "thorough": 500}
 ALIASES = ["hybrid_rush_larsen", "hybrid_rush_larsen", "rush_larsen", "forward_rush_larsen"]
 RULE = (
